@@ -228,7 +228,7 @@ _override_cache = {}
 
 
 def _overridden_below(P, h):
-    key = (id(P), h.key)
+    key = (P.serial, h.key)
     if key not in _override_cache:
         res = False
         classes = getattr(P, "ir_classes", None) or {}
@@ -907,8 +907,8 @@ _records_cache = {}
 def _records(P):
     """({record constructor name: field names}, {module-level name: lambda it stands for}) over the whole program:
     NAME = namedtuple("NAME", fields) / class NAME(NamedTuple) with annotated fields; NAME = attrgetter(...) / methodcaller(...) / lambda"""
-    if id(P) in _records_cache:
-        return _records_cache[id(P)]
+    if P.serial in _records_cache:
+        return _records_cache[P.serial]
     from .unroll import _as_lambda
     recs, lams, seen = {}, {}, {}
     for m in P.modules.values():
@@ -934,7 +934,7 @@ def _records(P):
     recs = {k: v for k, v in recs.items() if seen.get(k) == 1}
     lams = {k: v for k, v in lams.items() if seen.get(k) == 1}
     _records_cache.clear()
-    _records_cache[id(P)] = (recs, lams)
+    _records_cache[P.serial] = (recs, lams)
     return recs, lams
 
 
@@ -1031,10 +1031,102 @@ def _scalarise_records(node, recs):
     return done
 
 
+def _unroll_singleton_loops(node):
+    """`t = (a,)` immediately followed by `for x in t: BODY` (t used nowhere else), or `for x in (a,): BODY`, reads `x = a; BODY`: a helper
+    that takes an iterable, spliced in at a call that hands it one element.  Only when BODY has no break / continue of its own and the loop
+    has no else."""
+    changed = False
+
+    def own_jumps(body):
+        todo = list(body)
+        while todo:
+            st = todo.pop()
+            if isinstance(st, (ast.Break, ast.Continue)):
+                return True
+            if isinstance(st, (ast.For, ast.While, ast.FunctionDef, ast.ClassDef)):
+                continue
+            for fld in ("body", "orelse", "finalbody"):
+                todo.extend(getattr(st, fld, None) or [])
+            for h in getattr(st, "handlers", None) or []:
+                todo.extend(h.body)
+        return False
+
+    def uses(name):
+        return sum(1 for z in ast.walk(node) if isinstance(z, ast.Name) and z.id == name)
+
+    def bind(target, elt, body, at):
+        """`target = elt; body` — or, when both are plain names and neither is stored to in body, body with the name written through"""
+        if isinstance(target, ast.Name) and isinstance(elt, ast.Name) and uses(target.id) == 1 + sum(
+                1 for b in body for z in ast.walk(b) if isinstance(z, ast.Name) and z.id == target.id) \
+                and not any(isinstance(z, ast.Name) and z.id in (target.id, elt.id) and isinstance(z.ctx, (ast.Store, ast.Del)) for b in body for z in ast.walk(b)):
+            for b in body:
+                for z in ast.walk(b):
+                    if isinstance(z, ast.Name) and z.id == target.id:
+                        z.id = elt.id
+            return list(body)
+        return [ast.copy_location(ast.Assign(targets=[target], value=elt), at)] + list(body)
+
+    def block(stmts):
+        nonlocal changed
+        out, i = [], 0
+        while i < len(stmts):
+            st = stmts[i]
+            for fld in ("body", "orelse", "finalbody"):
+                b = getattr(st, fld, None)
+                if isinstance(b, list) and b and isinstance(b[0], ast.stmt):
+                    setattr(st, fld, block(b))
+            for h in getattr(st, "handlers", None) or []:
+                h.body = block(h.body)
+            nxt = stmts[i + 1] if i + 1 < len(stmts) else None
+            if isinstance(st, ast.Assign) and len(st.targets) == 1 and isinstance(st.targets[0], ast.Name) and isinstance(st.value, (ast.Tuple, ast.List)) \
+                    and len(st.value.elts) == 1 and not isinstance(st.value.elts[0], ast.Starred) and isinstance(nxt, ast.For) \
+                    and isinstance(nxt.iter, ast.Name) and nxt.iter.id == st.targets[0].id and uses(st.targets[0].id) == 2 \
+                    and not nxt.orelse and not own_jumps(nxt.body):
+                for fld in ("body",):
+                    nxt.body = block(nxt.body)
+                out.extend(bind(nxt.target, st.value.elts[0], nxt.body, nxt))
+                changed = True
+                i += 2
+                continue
+            if isinstance(st, ast.For) and isinstance(st.iter, (ast.Tuple, ast.List)) and len(st.iter.elts) == 1 and not isinstance(st.iter.elts[0], ast.Starred) \
+                    and not st.orelse and not own_jumps(st.body):
+                out.extend(bind(st.target, st.iter.elts[0], st.body, st))
+                changed = True
+                i += 1
+                continue
+            out.append(st)
+            i += 1
+        return out
+    node.body = block(node.body)
+    if changed:
+        ast.fix_missing_locations(node)
+        for parent in ast.walk(node):
+            for child in ast.iter_child_nodes(parent):
+                child._parent = parent
+    return changed
+
+
+def calls_iterating_helper(P, f):
+    """does method f call a private method of its own class whose body, at top level, loops over one of its parameters?  Such a helper
+    (`_remove_pins(pins)`: `for pin in pins: …`) is the caller's own loop written elsewhere: the caller is read with it spliced in."""
+    if f.cls is None:
+        return False
+    cls = f.cls
+    if not hasattr(cls, "methods"):
+        return False
+    for c in walk_local(f.node):
+        if isinstance(c, ast.Call) and isinstance(c.func, ast.Attribute) and isinstance(c.func.value, ast.Name) and c.func.value.id == "self" \
+                and c.func.attr.startswith("_") and not c.func.attr.startswith("__") and c.func.attr in cls.methods:
+            h = cls.methods[c.func.attr]
+            if any(isinstance(st, ast.For) and isinstance(st.iter, ast.Name) and st.iter.id in h.params[1:] for st in h.node.body):
+                return True
+    return False
+
+
 def inlined_view(P, f, keep=()):
     """FuncInfo of f with private helpers spliced in (f itself when there is nothing to splice); helpers named in `keep`
     (a set of names or a predicate on the name) stay calls — they are the anchors the calling rule reasons about"""
-    key = (id(P), f.key, keep if callable(keep) else tuple(sorted(keep)))
+    key = (P.serial, f.key, keep if callable(keep) else tuple(sorted(keep)))
     if key in _cache:
         return _cache[key]
     node = copy_tree(f.node)
@@ -1043,6 +1135,7 @@ def inlined_view(P, f, keep=()):
     recs, lams = _records(P)
     if inl.inlined:
         _split_tuple_unpacks(node)
+        _unroll_singleton_loops(node)
     scalar = bool(inl.inlined) and _scalarise_records(node, recs)
     aliased = _substitute_field_aliases(node)
     if not inl.inlined and not aliased:
@@ -1145,7 +1238,7 @@ def unmerged_view(P, f, max_rest=40):
     """FuncInfo of f in which the statements that follow `if isinstance(v, K): A else: B` (both branches falling through) and read `v`
     are moved into both branches; likewise after an if / else one side of which leaves a local at None that the rest reads.  Nothing changes but the shape: each copy is then analysed knowing which kind `v` has — what a
     path-sensitive typing of the merged tail would give.  Keys and names are f's."""
-    key = (id(P), f.key)
+    key = (P.serial, f.key)
     if key in _unmerge_cache:
         return _unmerge_cache[key]
 
